@@ -106,6 +106,13 @@ class C19(Prop):
             rng = random.Random('%d/c19/blocks' % seed)
             blocks += sorted(rng.sample(range(0x3000 // 256, 0x110000 // 256), 80))
             blocks = [b if b < 0x3000 else b * 256 for b in blocks]
+            # blocks with characters that software tends to special-case: the
+            # byte-order mark / variation selectors, full-width ASCII twins,
+            # surrogates, private use, emoji, tags, the last block
+            for b in (0xFE00, 0xFF00, 0xD800, 0xDF00, 0xE000, 0x1F600,
+                      0xE0000, 0x10FF00, 0xFB00, 0x3000, 0xA000):
+                if b < 0x110000 and b not in blocks:
+                    blocks.append(b)
         else:
             blocks = list(range(0, 0x110000, 256))
         for b in blocks:
